@@ -53,6 +53,14 @@ CHECKS['C11'] = dict(level='other',
    text='Deductive: do_create/do_delete/do_rename answer NO for INBOX without calling the backend; BaseSession turns KeyError/ValueError of the mailbox set into MailboxNotFound/MailboxConflict and lets nothing else escape; the dict MailboxSet add/delete/get/set_subscribed are proved against the map view (raise iff present/missing, refusals change nothing, exactly one name touched, INBOX in any case). Bounded: namespace programs on the real server against a plain model, and LIST/LSUB against an independent glob matcher, including inferiors, INBOX renames, wildcard, quote, newline and non-ASCII names.',
    note='Pattern semantics (regex), ListTree.get_renames and rename_mailbox are bounded only; maildir backends are not run by this check; two RFC don\'t-care cases accept either answer.',
    ref='6 C11')
+CHECKS['C14'] = dict(level='proof',
+   text='The real BaseSession source is verified against an abstract backend: a tagged NO (ResponseError) is raised only while no effect has happened in the command, and when a storage call of a multi-message APPEND fails (any exception, including cancellation) exactly the uids stored so far are handed to the rollback delete; the dict move/copy postconditions (message in exactly the destination after a completed move, nothing raised between removal and insertion) and the structural NoYieldUnderLock obligation (no lock held at a suspension point, so the second acquisition of move never suspends) show that there is no instant or cancellation point at which a moved message is in neither mailbox. A bounded fault-injection run on the real server is reported separately.',
+   note='Assumes that a storage call that raises has had no effect of its own, cooperative asyncio scheduling, and an abstract backend in the BaseSession contracts; maildir (os.rename + uid list, process kill) is not covered.',
+   ref='6 C14')
+CHECKS['C16'] = dict(level='other',
+   text='Deductive: at the blocking point of dict update_selected the session is up to date with the change log (no sleep with work pending) and the listener was registered before; _AsyncioEvent.set sets every registered listener; every change-log entry is followed by the signal in the same atomic segment. Bounded: bursts of changes against idling sessions on the real server with the transport blocked at each position, DONE racing with changes, read-only idlers, a changing session without the mailbox selected, checked with a client model.',
+   note='Liveness proper (finitely many scheduler steps) rests on assumed asyncio progress; IMAPConnection.idle/handle_updates are bounded only; maildir polling is not covered.',
+   ref='6 C16')
 NOT_YET = {}
 def main():
     props = [json.loads(l) for l in open(os.path.join(HERE, 'properties.jsonl'))]
